@@ -826,7 +826,7 @@ def seg_eq(p, a, q, b, m):
                 for lo2, hi2, v2, ch2, b2 in memo:
                     if v2 == val and ch2 == x.chain and same_int(lo2, x.lo + xa) and same_int(hi2, x.lo + xa + m):
                         return s_or(b2, s_eq(m, 0))
-                b = core.cur().fresh_bool('allsame_%s' % x.src.name)
+                b = core.cur().fresh_bool('allsame_%s' % x.src.name, prefer=True)
                 memo.append((x.lo + xa, x.lo + xa + m, val, x.chain, b))
                 return s_or(b, s_eq(m, 0))
             core.note('imprecise', 'opaque content compared with literal of symbolic/large length: treated as different')
